@@ -75,6 +75,10 @@ def gen_case(rng):
             g = P * rng.choice([Fraction(1, 2), 2, 3, Fraction(3, 4), Fraction(5, 4)])
         t = t + g
         ts.append(t)
+    if all(t.denominator == 1 for t in ts) and rng.random() < 0.4:
+        # integer time stamps far beyond 2^53 (epoch nanoseconds): the gaps are exact only in integer arithmetic
+        off = rng.choice([2 ** 53 + 1, 1695555555123456789, 10 ** 17 + 3])
+        ts = [t + off for t in ts]
     g = F.Gen(rng, ["a", "b"], F.PAST_ONLY - {"fn"}, max_bound=0)
     f = g.formula(rng.choice([1, 2]))
     # bounds must be multiples of the sampling period: only unbounded operators (max_bound=0 gives [0,0])
@@ -85,7 +89,7 @@ def gen_case(rng):
 
 def num(q):
     q = Fraction(q)
-    return int(q) if q.denominator == 1 and abs(q) < 2 ** 53 else float(q)
+    return int(q) if q.denominator == 1 else float(q)
 
 
 def run_impl(case):
